@@ -651,7 +651,7 @@ theorem kStep_cases {P : Par} {S : St} {l : Label} {k' : Nat → Cache.St Nat} (
     | none => rw [hs] at h; cases h
     | some s' =>
       rw [hs] at h
-      exact Or.inr ⟨q, lab, s', hp, rfl, (Option.some.inj h).symm⟩
+      exact Or.inr ⟨q, lab, s', hp, hs, (Option.some.inj h).symm⟩
 
 /-- **a joint history is a history of the joint messaging model `Comm`** (so C01, C02ME, C02C01, DistComm apply) -/
 theorem run_projC {P : Par} {S S' : St} (jls : List Label) (h : run P S jls = some S') :
@@ -693,7 +693,8 @@ theorem run_projK {P : Par} {S S' : St} (jls : List Label) (h : run P S jls = so
       have := ih h
       rw [projR_cons]
       rcases kStep_cases (step_some hst).2.2 with ⟨hp, hk⟩ | ⟨q, lab, s', hp, hs, hk⟩
-      · rw [hp, hk] at *
+      · rw [hp]
+        rw [hk] at this
         simpa using this
       · rw [hp]
         by_cases hq : q = r
@@ -720,32 +721,56 @@ theorem comm_cbs_allowed {n : Nat} {nh : Nat → Nat → Nat} {c c' : Comm.St} {
   | async r uid dest direct => cases ha
   | regcb r => cases ha
   | runcb r msgs j => cases ha
-  | isend r hop => simp only [Comm.projB, BarrierME.run] at hB; cases hB; rfl
-  | recvBegin r src seq => simp only [Comm.projB, BarrierME.run] at hB; cases hB; rfl
-  | fwd r uid => simp only [Comm.projB, BarrierME.run] at hB; cases hB; rfl
-  | recvEnd r => simp only [Comm.projB, BarrierME.run] at hB; cases hB; rfl
+  | isend r hop => simp only [Comm.projB, BarrierME.run] at hB; rw [← Option.some.inj hB]
+  | recvBegin r src seq => simp only [Comm.projB, BarrierME.run] at hB; rw [← Option.some.inj hB]
+  | fwd r uid => simp only [Comm.projB, BarrierME.run] at hB; rw [← Option.some.inj hB]
+  | recvEnd r => simp only [Comm.projB, BarrierME.run] at hB; rw [← Option.some.inj hB]
   | execBegin r uid =>
-    simp only [Comm.projB, Comm.bRun_single, BarrierME.step] at hB; split at hB <;> cases hB; rfl
+    simp only [Comm.projB, Comm.bRun_single, BarrierME.step] at hB
+  split at hB
+  · rw [← Option.some.inj hB]
+  · cases hB
   | execEnd r uid =>
-    simp only [Comm.projB, Comm.bRun_single, BarrierME.step] at hB; split at hB <;> cases hB; rfl
+    simp only [Comm.projB, Comm.bRun_single, BarrierME.step] at hB
+  split at hB
+  · rw [← Option.some.inj hB]
+  · cases hB
   | enter r =>
-    simp only [Comm.projB, Comm.bRun_single, BarrierME.step] at hB; split at hB <;> cases hB; rfl
+    simp only [Comm.projB, Comm.bRun_single, BarrierME.step] at hB
+  split at hB
+  · rw [← Option.some.inj hB]
+  · cases hB
   | contribute r =>
-    simp only [Comm.projB, Comm.bRun_single, BarrierME.step] at hB; split at hB <;> cases hB; rfl
+    simp only [Comm.projB, Comm.bRun_single, BarrierME.step] at hB
+  split at hB
+  · rw [← Option.some.inj hB]
+  · cases hB
   | result r =>
-    simp only [Comm.projB, Comm.bRun_single, BarrierME.step] at hB; split at hB <;> cases hB; rfl
+    simp only [Comm.projB, Comm.bRun_single, BarrierME.step] at hB
+  split at hB
+  · rw [← Option.some.inj hB]
+  · cases hB
   | exit r =>
-    simp only [Comm.projB, Comm.bRun_single, BarrierME.step] at hB; split at hB <;> cases hB; rfl
+    simp only [Comm.projB, Comm.bRun_single, BarrierME.step] at hB
+  split at hB
+  · rw [← Option.some.inj hB]
+  · cases hB
 
 theorem comm_cbs_async {n : Nat} {nh : Nat → Nat → Nat} {c c' : Comm.St} {r uid dest : Nat} {direct : Bool}
     (h : Comm.step n nh c (.async r uid dest direct) = some c') : c'.b.cbs = c.b.cbs := by
   have hB := (Comm.step_some h).2.2.1
-  simp only [Comm.projB, Comm.bRun_single, BarrierME.step] at hB; split at hB <;> cases hB; rfl
+  simp only [Comm.projB, Comm.bRun_single, BarrierME.step] at hB
+  split at hB
+  · rw [← Option.some.inj hB]
+  · cases hB
 
 theorem comm_cbs_regcb {n : Nat} {nh : Nat → Nat → Nat} {c c' : Comm.St} {r : Nat}
     (h : Comm.step n nh c (.regcb r) = some c') : c'.b.cbs = upd c.b.cbs r (c.b.cbs r + 1) := by
   have hB := (Comm.step_some h).2.2.1
-  simp only [Comm.projB, Comm.bRun_single, BarrierME.step] at hB; split at hB <;> cases hB; rfl
+  simp only [Comm.projB, Comm.bRun_single, BarrierME.step] at hB
+  split at hB
+  · rw [← Option.some.inj hB]
+  · cases hB
 
 theorem comm_cbs_runcb {n : Nat} {nh : Nat → Nat → Nat} {c c' : Comm.St} {r j : Nat} {msgs : List Comm.Msg}
     (h : Comm.step n nh c (.runcb r msgs j) = some c') :
@@ -754,7 +779,7 @@ theorem comm_cbs_runcb {n : Nat} {nh : Nat → Nat → Nat} {c c' : Comm.St} {r 
   simp only [Comm.projB, Comm.bRun_single, BarrierME.step] at hB
   split at hB
   · rename_i hc
-    cases hB
+    rw [← Option.some.inj hB]
     exact ⟨hc.2.1, rfl⟩
   · cases hB
 
@@ -813,7 +838,7 @@ theorem step_jinv {P : Par} {S S' : St} {l : Label} (hi : JInv S) (h : step P S 
           refine ⟨hkq, ?_⟩
           unfold owed at hoq ⊢
           rw [hrel.1, hrel.2]; rw [hreg] at hoq
-          simp only [b2n] at hoq ⊢
+          simp [b2n] at hoq ⊢
           omega
         · rw [other x hx, hcb, upd_other _ _ _ _ hx]; exact hi x
     | pack r uid =>
@@ -880,8 +905,8 @@ theorem step_jinv {P : Par} {S S' : St} {l : Label} (hi : JInv S) (h : step P S 
         refine ⟨hkq, ?_⟩
         unfold owed at hoq ⊢
         rw [hrel.2.2.1, hrel.2.2.2]; rw [hrel.1, hrel.2.1] at hoq
-        simp only [b2n] at hoq ⊢
-        omega
+        simp [b2n] at hoq ⊢
+        first | done | omega
       · rw [other x hx, hcb, upd_other _ _ _ _ hx]; exact hi x
     | fe r =>
       simp only [projK, Option.some.injEq, Prod.mk.injEq] at hp
@@ -895,7 +920,7 @@ theorem step_jinv {P : Par} {S S' : St} {l : Label} (hi : JInv S) (h : step P S 
         refine ⟨hkq, ?_⟩
         unfold owed at hoq ⊢
         rw [hrel.1, hrel.2.2]; rw [hrel.2.1] at hoq
-        simp only [b2n] at hoq ⊢
+        simp [b2n] at hoq ⊢
         omega
       · rw [other x hx, hcb, upd_other _ _ _ _ hx]; exact hi x
 
